@@ -315,16 +315,14 @@ Qed.
 Theorem prog_spec : forall szs vals st es ps k r, nonneg szs ->
   (extend_keeps_strand = true \/ st = false \/ no_extend ps) ->
   (k = CExtract -> szs = map len vals) ->
-  (k = CSeq -> forall rows, spec_steps szs st es ps = Some rows ->
-     st = false \/ len rows < len (concat (map (fun e => slice (e_start e) (e_stop e) (nthd [] vals (e_chr e))) rows))) ->
   spec_prog szs vals st es ps k = Some r -> model_prog szs vals st es ps k = r.
 Proof.
-  intros szs vals st es ps k r Hs Hc Hx Hq H. unfold spec_prog, model_prog in *.
+  intros szs vals st es ps k r Hs Hc Hx H. unfold spec_prog, model_prog in *.
   destruct (spec_steps szs st es ps) as [rows|] eqn:E; [|discriminate].
   rewrite (spec_steps_model szs st ps es rows Hs Hc E). destruct k; cbn [spec_cons model_cons] in *.
   - destruct (forallb (entry_good szs) rows) eqn:G; [|discriminate]. inversion H.
     apply extract_local; [apply Hx; reflexivity|apply good_wf; exact G].
-  - destruct (forallb (entry_good szs) rows) eqn:G; [|discriminate]. inversion H. apply seq_partial. apply (Hq eq_refl rows eq_refl).
+  - destruct (forallb (entry_good szs) rows) eqn:G; [|discriminate]. inversion H. apply seq_full.
   - destruct (Z.leb_spec 0 w); [|discriminate]. destruct (Z.leb_spec w 2); [|discriminate]. cbn in H. inversion H.
     f_equal. apply map_ext. intros e. rewrite location_fixed_spec by lia. reflexivity.
 Qed.
@@ -366,12 +364,9 @@ Definition case_wf (c : case) : Prop :=
      | OWindows l r => 0 <= l /\ 0 <= r /\ Forall (fun e => 0 <= e_start e < size_of (szs c) (e_chr e)) (ves c)
      | OExtract _ => szs c = map len (cvals c)
      | OSeq st => forallb (entry_good (szs c)) (ves c) = true
-                  /\ (st = false \/ len (ves c) < len (concat (map (fun e => slice (e_start e) (e_stop e) (nthd [] (cvals c) (e_chr e))) (ves c))))
      | OProg st ps k =>
          (extend_keeps_strand = true \/ st = false \/ no_extend ps)
          /\ (k = CExtract -> szs c = map len (cvals c))
-         /\ (k = CSeq -> forall rows, spec_steps (szs c) st (ves c) ps = Some rows ->
-               st = false \/ len rows < len (concat (map (fun e => slice (e_start e) (e_stop e) (nthd [] (cvals c) (e_chr e))) rows)))
      | _ => True
      end.
 
@@ -442,12 +437,12 @@ Proof.
   - (* extract *) apply placed_accepts; [rewrite Eop; exact Hg| |].
     + intros Hgd. apply extract_local; [exact Hop|apply good_placed; exact Hgd].
     + intros Hb. destruct (Href Hb) as [code E]. unfold model_extract. rewrite E. reflexivity.
-  - (* sequence *) destruct Hop as [Hgd Hguard]. apply placed_accepts; [rewrite Eop; exact Hg| |].
-    + intros _. apply seq_partial. exact Hguard.
+  - (* sequence *) rename Hop into Hgd. apply placed_accepts; [rewrite Eop; exact Hg| |].
+    + intros _. apply seq_full.
     + intros Hb. congruence.
-  - (* programs *) destruct Hop as [Hc [Hx Hq]].
+  - (* programs *) destruct Hop as [Hc Hx].
     destruct (spec_prog (szs c) (cvals c) st (ves c) ps k) as [r|] eqn:E; cbn [accepts]; [|reflexivity].
-    rewrite (prog_spec _ _ _ _ _ _ r Hs Hc Hx Hq E). apply res_eqb_refl.
+    rewrite (prog_spec _ _ _ _ _ _ r Hs Hc Hx E). apply res_eqb_refl.
 Qed.
 
 Theorem model_ok_spec_ok : forall c, case_wf c -> model_ok c = true -> spec_ok c = true.
